@@ -166,6 +166,9 @@ func TestC07Guard(t *testing.T) {
 		script = append(script, Op{K: "badval", M: mGadget, A: 1, B: b, V: 1}, Op{K: "badval", M: mReview, A: 1, B: b, V: 1})
 	}
 	script = append(script, Op{K: "loop", M: mTag, A: 1, B: 1})
+	for b := range badchainUses {
+		script = append(script, Op{K: "badchain", M: mAuthor, A: 1, B: b, V: 1})
+	}
 	// operations that must fail, with the database's error
 	bad := map[string]string{
 		"badraw(Gadget 1 v1)":   "err=no such table: c07_missing_1",
@@ -196,6 +199,12 @@ func TestC07Guard(t *testing.T) {
 		c.Programs = [][]Op{script}
 		first := runSerial(&c)
 		for i, r := range first.results[0] {
+			if script[i].K == "badchain" {
+				if !strings.HasPrefix(r, "err=") {
+					t.Errorf("harness: %s must fail: %s", script[i], r)
+				}
+				continue
+			}
 			if script[i].K == "badval" {
 				if !strings.HasPrefix(r, "err=CHECK constraint failed") {
 					t.Errorf("harness: %s must be refused by the CHECK constraint: %s", script[i], r)
@@ -247,6 +256,9 @@ func TestC07Guard(t *testing.T) {
 			if o.K == "first" && o.M == mWidget && o.A == 5 && !strings.Contains(r, `secret="s105-7"`) {
 				t.Errorf("harness: the Cipher field does not round-trip: %q", r)
 			}
+		}
+		if first.handleErr != "" {
+			t.Errorf("harness: a shared handle carries an error after a serial run on the unchanged tree: %s", first.handleErr)
 		}
 		if len(first.rows) < 10 {
 			t.Errorf("harness: final dump holds only %d rows", len(first.rows))
